@@ -1,11 +1,13 @@
 (* C07 -- reduction identity: sample re-weighting is the exact gradient of the Lagrangian.
-   Only statements, `exact`, and Print Assumptions. *)
+   Only statements, `exact`, and Print Assumptions.  gamma / signed_weights / project_lambda / relabel /
+   reweight are the definitions of FL.Moments and FL.Reduction that the correspondence run evaluates. *)
 From Coq Require Import QArith ZArith List.
 From FL Require Import Num Moments Moments_proofs Reduction Reduction_proofs.
+From FLGen Require Gen_moments.
 Import ListNotations.
 Open Scope Q_scope.
 
-(* for EVERY multiplier vector lam (no sign condition) and any two prediction vectors *)
+(* for EVERY multiplier vector lam (no sign condition), every ratio and any two prediction vectors *)
 Theorem C07_reduction_identity :
   forall (k : kind) (r : Q) (rows : list row) (lam h h' : list Q),
   length h = length rows -> length h' = length rows ->
@@ -14,6 +16,15 @@ Theorem C07_reduction_identity :
 Proof. exact reduction_identity. Qed.
 Print Assumptions C07_reduction_identity.
 
+(* ErrorRate.gamma is the cost-weighted error (linear extension to soft h) ... *)
+Theorem C07_error_rate_gamma_spec :
+  forall (fp fn : Q) (rows : list row) (h : list Q),
+  binary_rows rows -> soft h -> length h = length rows ->
+  er_gamma fp fn rows h == qsum (zipw (er_cost fp fn) rows h) / nrows rows.
+Proof. exact error_rate_gamma_spec. Qed.
+Print Assumptions C07_error_rate_gamma_spec.
+
+(* ... and its gradient is -(1/n) * (-c_fp + (c_fp + c_fn) y_i) *)
 Theorem C07_objective_identity :
   forall (fp fn : Q) (rows : list row) (h h' : list Q),
   binary_rows rows -> soft h -> soft h' -> length h = length rows -> length h' = length rows ->
@@ -22,6 +33,16 @@ Theorem C07_objective_identity :
 Proof. exact objective_identity. Qed.
 Print Assumptions C07_objective_identity.
 
+Theorem C07_lagrangian_identity :
+  forall (k : kind) (r eps fp fn : Q) (rows : list row) (lam h h' : list Q),
+  binary_rows rows -> soft h -> soft h' -> length h = length rows -> length h' = length rows ->
+  lagrangian k r eps fp fn rows lam h - lagrangian k r eps fp fn rows lam h'
+  == - (1 / nrows rows) * dot (oracle_weights k r fp fn rows lam) (vsub h h').
+Proof. exact lagrangian_identity. Qed.
+Print Assumptions C07_lagrangian_identity.
+
+(* weighted 0/1 error against labels 1[w>0] with weights |w| orders hard hypotheses exactly as
+   objective + lambda.(gamma - bound): a learner minimising the former minimises the Lagrangian *)
 Theorem C07_cost_sensitive_equiv :
   forall (k : kind) (r eps fp fn : Q) (rows : list row) (lam h h' : list Q),
   rows <> [] ->
@@ -31,3 +52,61 @@ Theorem C07_cost_sensitive_equiv :
   <-> lagrangian k r eps fp fn rows lam h <= lagrangian k r eps fp fn rows lam h'.
 Proof. exact cost_sensitive_equiv. Qed.
 Print Assumptions C07_cost_sensitive_equiv.
+
+Theorem C07_project_lambda_sound :
+  forall (k : kind) (r eps : Q) (rows : list row) (lam : list Q),
+  r == 1 -> 0 <= eps ->
+  length lam = length (index k rows) -> Forall (fun x => 0 <= x) lam ->
+  let m := length (pairs_of k rows) in
+  let lam' := project_lambda r m lam in
+  Forall (fun x => 0 <= x) lam' /\ length lam' = length lam /\
+  forall h, dot lam (vsub (gamma k r rows h) (bound eps k rows))
+            <= dot lam' (vsub (gamma k r rows h) (bound eps k rows)).
+Proof. exact project_lambda_sound. Qed.
+Print Assumptions C07_project_lambda_sound.
+
+Theorem C07_project_lambda_ratio :
+  forall (r : Q) (m : nat) (lam : list Q), ~ r == 1 -> project_lambda r m lam = lam.
+Proof. exact project_lambda_ratio. Qed.
+Print Assumptions C07_project_lambda_ratio.
+
+(* source tie: signed_weights is written with the expression regenerated from UtilityParity.signed_weights, over
+   the same matrix Umat whose entries props/C06.v ties to the source (C06_src_uentry) *)
+Theorem C07_src_signed_weights :
+  forall k r rows lam,
+  signed_weights k r rows lam
+  = zipw Gen_moments.sw_entry (map (udiff k) rows) (lincomb (length rows) (Umat k r rows) lam).
+Proof. exact src_signed_weights. Qed.
+Print Assumptions C07_src_signed_weights.
+
+(* BoundedGroupLoss: lambda . gamma(h) = (1/n) sum_i w_i loss_i(h), w_i = lambda_{g(i)} / P(g(i)) *)
+Theorem C07_loss_identity :
+  forall (l : loss) (rows : list lrow) (lam h : list Q),
+  length h = length rows ->
+  dot lam (bgl_gamma l rows h)
+  == (1 / inject_nat (length rows)) * dot (bgl_signed_weights rows lam) (losses l rows h).
+Proof. exact loss_identity. Qed.
+Print Assumptions C07_loss_identity.
+
+(* the n / sum|w| rescaling that _call_oracle applies to the weights does not change the order of hypotheses
+   (reweight_eg = None exactly when every weight is 0, where the implementation divides 0 by 0) *)
+Theorem C07_reweight_eg_order :
+  forall (w ww yy h h' : list Q),
+  reweight_eg w = Some ww ->
+  (w01 ww yy h <= w01 ww yy h' <-> w01 (reweight w) yy h <= w01 (reweight w) yy h').
+Proof. exact reweight_eg_order. Qed.
+Print Assumptions C07_reweight_eg_order.
+
+(* non-vacuity: equalized odds with a ratio bound on 5 rows; premises hold and both sides of the identity are
+   the same non-zero rational *)
+Example C07_example :
+  let rows := [mkRow 0 0 None; mkRow 1 0 None; mkRow 1 1 None; mkRow 0 1 None; mkRow 1 1 None] in
+  let lam := [2; 0; 1 # 2; 0; 0; 1; 0; 3] in
+  let h := [1; 0; 1; 0; 1 # 2] in let h' := [0; 0; 0; 1; 1] in
+  length lam = length (index EO rows) /\ binary_rows rows /\
+  ~ dot lam (gamma EO (1 # 2) rows h) - dot lam (gamma EO (1 # 2) rows h') == 0 /\
+  dot lam (gamma EO (1 # 2) rows h) - dot lam (gamma EO (1 # 2) rows h')
+  == - (1 / nrows rows) * dot (signed_weights EO (1 # 2) rows lam) (vsub h h').
+Proof.
+  cbv zeta. split; [reflexivity|]. split; [repeat (apply Forall_cons; [cbn; first [left; reflexivity | right; reflexivity]|]); apply Forall_nil|]. split; vm_compute; congruence.
+Qed.
